@@ -346,12 +346,179 @@ class Gen:
             self.add('std::hash(%s)' % cls, {'cls': cls, 'kind': 'hash', 'name': 'hash',
                                              'args': [cls], 'ret': 'size_t', 'self': False}, body)
 
+    def gen_units(self):
+        """Conversion entry points of Unit.hpp, per unit type. Run-time units are entry-family
+        parameters (c.param), compile-time units are separate entries."""
+        containers = [
+            ('num', 'c.make<T>()'),
+            ('array3', 'c.make_array<T, 3>()'),
+            ('stdvector4', 'c.make_vector<T>(4)'),
+            ('PlanarVector', 'c.make<PhQ::PlanarVector<T>>()'),
+            ('Vector', 'c.make<PhQ::Vector<T>>()'),
+            ('SymmetricDyad', 'c.make<PhQ::SymmetricDyad<T>>()'),
+            ('Dyad', 'c.make<PhQ::Dyad<T>>()'),
+        ]
+        for u in self.facts['units']:
+            en = 'Unit::' + u
+            ens = self.enums[en]
+            U = 'PhQ::Unit::' + u
+            fam2 = {'params': [en, en]}
+            fam1 = {'params': [en]}
+            for cname, mk in containers:
+                pol = 'all-pairs' if cname == 'num' else 'some-pairs'
+                body = ('  auto a0 = %s;\n  const auto from = static_cast<%s>(c.param(0));\n'
+                        '  const auto to = static_cast<%s>(c.param(1));\n'
+                        '  auto r = PhQ::Convert(a0, from, to);\n  c.out("r", r);\n  c.out("arg", a0);\n'
+                        % (mk, U, U))
+                self.add('unit::Convert<%s>(%s)' % (u, cname),
+                         {'cls': 'unit:' + u, 'kind': 'convert-copy', 'name': 'Convert', 'args': [cname],
+                          'ret': cname, 'self': False, 'family': fam2, 'policy': pol, 'enum': en}, body)
+                body = ('  auto a0 = %s;\n  const auto from = static_cast<%s>(c.param(0));\n'
+                        '  const auto to = static_cast<%s>(c.param(1));\n'
+                        '  PhQ::ConvertInPlace(a0, from, to);\n  c.out("self", a0);\n' % (mk, U, U))
+                self.add('unit::ConvertInPlace<%s>(%s)' % (u, cname),
+                         {'cls': 'unit:' + u, 'kind': 'convert-inplace', 'name': 'ConvertInPlace',
+                          'args': [cname], 'ret': cname, 'self': False, 'family': fam2,
+                          'policy': 'some-pairs',
+                          'enum': en}, body)
+            # run-time dispatch tables
+            for d in ('ToStandard', 'FromStandard'):
+                body = ('  auto a0 = c.make<T>();\n  const auto u = static_cast<%s>(c.param(0));\n'
+                        '  const auto& table = PhQ::Internal::MapOfConversions%s<%s, T>;\n'
+                        '  const auto found = table.find(u);\n'
+                        '  if (found == table.end()) { c.error = "missing-key"; return; }\n'
+                        '  found->second(&a0, 1);\n  c.out("self", a0);\n' % (U, d, U))
+                self.add('unit::map::%s<%s>' % (d, u),
+                         {'cls': 'unit:' + u, 'kind': 'map-kernel', 'name': d, 'args': ['num'],
+                          'ret': 'num', 'self': False, 'family': fam1, 'policy': 'all', 'enum': en}, body)
+            # compile-time kernels and ConvertStatically
+            for i, e in enumerate(ens):
+                for d in ('ToStandard', 'FromStandard'):
+                    body = ('  auto a0 = c.make<T>();\n'
+                            '  PhQ::Internal::Conversion<%s, %s::%s>::%s(a0);\n  c.out("self", a0);\n'
+                            % (U, U, e, d))
+                    self.add('unit::kernel::%s<%s::%s>' % (d, u, e),
+                             {'cls': 'unit:' + u, 'kind': 'static-kernel', 'name': d, 'args': ['num'],
+                              'ret': 'num', 'self': False, 'enum': en, 'unit': e}, body)
+                nxt = ens[(i + 1) % len(ens)]
+                for cname, mk in containers:
+                    if cname == 'stdvector4':
+                        continue
+                    sizes = ''
+                    m = re.match(r'array(\d+)', cname)
+                    for (f, t) in ((e, nxt),) if cname != 'num' else ((e, nxt), (e, e)):
+                        if cname != 'num' and i % 5 != 0:
+                            continue
+                        if m:
+                            call = 'PhQ::ConvertStatically<%s, %s::%s, %s::%s, %s, T>(a0)' % (
+                                U, U, f, U, t, m.group(1))
+                        else:
+                            call = 'PhQ::ConvertStatically<%s, %s::%s, %s::%s>(a0)' % (U, U, f, U, t)
+                        body = '  auto a0 = %s;\n  auto r = %s;\n  c.out("r", r);\n  c.out("arg", a0);\n' % (
+                            mk, call)
+                        self.add('unit::ConvertStatically<%s::%s,%s>(%s)' % (u, f, t, cname),
+                                 {'cls': 'unit:' + u, 'kind': 'convert-static', 'name': 'ConvertStatically',
+                                  'args': [cname], 'ret': cname, 'self': False, 'enum': en,
+                                  'from': f, 'to': t}, body)
+
+    def gen_models(self):
+        """The three constitutive-model classes: constructors, accessors, the five virtual functions
+        in their three numeric-type overloads (called through a base-class reference and directly),
+        comparison, hashing, string forms."""
+        nat = {'float': 32, 'double': 64, 'long double': 80}
+        for M in self.facts['models']:
+            fc = self.classes[M]
+            MT = 'PhQ::ConstitutiveModel::%s<T>' % M
+            fields = [(f['name'], re.match(r'^(?:PhQ::)?(\w+)<NumericType>$', f['type']).group(1))
+                      for f in fc['fields']]
+            canon = ''.join('  auto f%d = c.make<PhQ::%s<T>>();\n' % (i, t) for i, (_, t) in enumerate(fields))
+            canon += '  const %s m(%s);\n' % (MT, ', '.join('f%d' % i for i in range(len(fields))))
+            stored = [m['name'] for m in fc['members'] if m['kind'] == 'method' and m['access'] == 'public'
+                      and not m['params'] and m['ret'].startswith('const PhQ::') and m['ret'].endswith('&')]
+            base_meta = {'cls': 'model:' + M, 'fields': [t for _, t in fields], 'stored': stored}
+            for m in fc['members']:
+                if m['access'] != 'public' or m['implicit'] or m['deleted']:
+                    continue
+                ptypes = [p['type'] for p in m['params']]
+                name = m['name']
+                if m['kind'] == 'ctor':
+                    if len(ptypes) == 0:
+                        body = '  const %s m;\n' % MT + ''.join(
+                            '  c.out("%s", m.%s());\n' % (a, a) for a in stored)
+                        self.add('model::%s::ctor()' % M, dict(base_meta, kind='model-ctor', name='ctor',
+                                                               args=[], ret=M, self=False), body)
+                        continue
+                    if len(ptypes) == 1 and norm_type(ptypes[0]) == '%s<NumericType>' % M:
+                        continue
+                    args, metas = [], []
+                    for p in ptypes:
+                        a = self.arg(p)
+                        args.append(a[0])
+                        metas.append(a[1])
+                    body = ''.join('  auto a%d = %s;\n' % (i, a) for i, a in enumerate(args))
+                    body += '  const %s m(%s);\n' % (MT, ', '.join('a%d' % i for i in range(len(args))))
+                    body += ''.join('  c.out("%s", m.%s());\n' % (a, a) for a in stored)
+                    self.add('model::%s::ctor(%s)' % (M, ','.join(metas)),
+                             dict(base_meta, kind='model-ctor', name='ctor', args=metas, ret=M, self=False),
+                             body)
+                    continue
+                if name == 'operator=':
+                    continue
+                if not ptypes and name not in ('GetType',) + STRING_FORMS:
+                    body = canon + '  c.out("r", m.%s());\n' % name
+                    self.add('model::%s::%s()' % (M, name),
+                             dict(base_meta, kind='model-accessor', name=name, args=[],
+                                  ret=norm_type(m['ret']).replace('<NumericType>', ''), self=True), body)
+                    continue
+                if name == 'GetType' or name in STRING_FORMS:
+                    for via in ('base', 'direct'):
+                        recv = 'base' if via == 'base' else 'm'
+                        body = canon + '  const PhQ::ConstitutiveModel& base = m;\n  (void)base;\n' \
+                            '  c.out("r", %s.%s());\n' % (recv, name)
+                        self.add('model::%s::%s()[%s]' % (M, name, via),
+                                 dict(base_meta, kind='model-string' if name != 'GetType' else 'model-type',
+                                      name=name, args=[], ret=norm_type(m['ret']), via=via, self=True), body)
+                    continue
+                # virtual overloads on float / double / long double
+                mm = [re.match(r'^const PhQ::(\w+)<(float|double|long double)> &$', p) for p in ptypes]
+                if not all(mm):
+                    self.skipped.append((M, name, ptypes, 'unsupported model member'))
+                    continue
+                afmt = nat[mm[0].group(2)]
+                for via in ('base', 'direct'):
+                    recv = 'base' if via == 'base' else 'm'
+                    body = 'using A = vrt::Num<%d>;\n' % afmt + canon
+                    body += ''.join('  auto a%d = c.make<PhQ::%s<A>>();\n' % (i, x.group(1))
+                                    for i, x in enumerate(mm))
+                    body += '  const PhQ::ConstitutiveModel& base = m;\n  (void)base;\n'
+                    body += '  auto r = %s.%s(%s);\n  c.out("r", r);\n' % (
+                        recv, name, ', '.join('a%d' % i for i in range(len(mm))))
+                    self.add('model::%s::%s(%s)[A=%d,%s]' % (M, name, ','.join(x.group(1) for x in mm), afmt, via),
+                             dict(base_meta, kind='model-virtual', name=name,
+                                  args=[x.group(1) for x in mm], afmt=afmt, via=via,
+                                  ret=re.match(r'^PhQ::(\w+)<', m['ret']).group(1), self=True), body)
+            # comparison, hash, streaming
+            two = canon.replace('f0', 'g0').replace('f1', 'g1').replace(' m(', ' m2(')
+            for op, nm in (('==', 'eq'), ('!=', 'ne'), ('<', 'lt'), ('>', 'gt'), ('<=', 'le'), ('>=', 'ge')):
+                body = canon + two + '  c.out("r", m %s m2);\n' % op
+                self.add('model::%s::operator%s' % (M, op),
+                         dict(base_meta, kind='model-compare', name='operator' + op, args=[M, M], ret='bool',
+                              self=False), body)
+            body = canon + '  c.out("r", std::hash<%s>()(m));\n' % MT
+            self.add('model::%s::hash' % M, dict(base_meta, kind='model-hash', name='hash', args=[M],
+                                                 ret='size_t', self=False), body)
+            body = canon + '  std::ostringstream os;\n  os << m;\n  c.out("r", os.str());\n'
+            self.add('model::%s::operator<<' % M, dict(base_meta, kind='model-stream', name='operator<<',
+                                                       args=[M], ret='std::string', self=False), body)
+
     def run(self):
+        self.gen_models()
         for cls in self.quantity_classes:
             self.gen_class(cls)
         self.gen_free()
         self.gen_std_math()
         self.gen_hash()
+        self.gen_units()
 
 
 HEADER = '''// GENERATED by gen_entries.py -- do not edit.
@@ -392,6 +559,7 @@ def main():
         shards[i].extend(es)
         loads[i] += len(es)
     includes = '\n'.join('#include "PhQ/%s.hpp"' % c for c in g.quantity_classes)
+    includes += '\n' + '\n'.join('#include "PhQ/ConstitutiveModel/%s.hpp"' % m for m in facts['models'])
     for si, es in enumerate(shards):
         with open(os.path.join(outdir, 'entries_%02d.cpp' % si), 'w') as f:
             f.write(HEADER % includes)
